@@ -146,7 +146,8 @@ def plan(ctx):
     for n in ([1, 255, 256] if q else [1, 2, 255, 256, 257, 4096, 4097]):
         add(C.ids_case(rng, n, comp=rng.choice(comps), base=rng.choice([0, 0, 100000]), split_gid=rng.random() < 0.5))
     # (4) xattr sets around multiples of 512, shared long values, empty values, every prefix, binary
-    for n in ([0, 1, 511, 512, 513, 1025] if q else [0, 1, 2, 511, 512, 513, 1023, 1024, 1025, 2048]):
+    # (1025 sets = 3 descriptor blocks, 2049 = 5: locations[3], locations[4] are used; 4097 = 9 blocks)
+    for n in ([0, 1, 511, 512, 513, 1025, 2049] if q else [0, 1, 2, 511, 512, 513, 1023, 1024, 1025, 1537, 2048, 2049, 4097]):
         add(C.xattrsets_case(rng, n, comp=rng.choice(comps), shared=(n != 512 or rng.random() < 0.5)))
     # (5) every inode type, names, hard links
     for comp in (rng.sample(comps, 2) if q else comps):
@@ -158,11 +159,12 @@ def plan(ctx):
     add(C.hardlink_case(rng, "packdir", rng.choice(comps)))
     add(C.hardlink_case(rng, "packdir", rng.choice(comps), nohl=True))
     add(C.hardlink_case(rng, "packfile", rng.choice(comps)))
+    add(C.hardlink_case(rng, "packfile-first", rng.choice(comps)))
     # (6) glob
     gv = ["all", "attrs", "types", "name", "path", "nonrec", "mixed"]
     for v in (gv if q else gv * 4):
         add(C.glob_case(rng, rng.choice(comps), rng.choice([4096, 16384]), v))
-    for v in (["prefix-decoy", "types", "nohardlinks"] if q else ["prefix", "prefix-decoy", "root", "nohardlinks", "types"]):
+    for v in ["prefix", "prefix-decoy", "root", "nohardlinks", "types", "name-first-filtered", "keeptime-attrs"]:
         add(C.glob_hardlink_case(rng, rng.choice(comps), v))
     # (7) options whose effect on the tree is documented
     for i in range(36 if q else 96):
@@ -176,19 +178,27 @@ def plan(ctx):
         if o["bs"] >= 262144:
             n = min(n, 12)
         if mode == "packfile":
-            body = C.mixed_packfile(rng, n, o["bs"], links=rng.random() < 0.1)
+            body = C.mixed_packfile(rng, n, o["bs"], links=rng.random() < 0.35)
         elif mode == "packdir":
             body = {"mode": "packdir", "fs": C.mixed_fs(rng, n, o["bs"]), "xa": []}
             if rng.random() < 0.25:
                 body["xa"] = C.xa_for_fs(rng, body["fs"])
         else:
-            c = C.glob_case(rng, o["comp"], o["bs"], rng.choice(gv))
+            c = C.glob_case(rng, o["comp"], o["bs"], rng.choice(gv), links=rng.random() < 0.4)
             body = {k: c[k] for k in ("mode", "fs", "lines", "xa")}
         add(C.case("random", "random-%d-%s" % (i, mode), body, o))
     # (9) refusals
     cases += C.refusal_cases(rng, not q)
-    # (10) thorough only: > 4 GiB through holes, inode number deltas beyond s16
+    # (10) sizes beyond 4 GiB: quick one hole-made file (size and last block offset > 2^32, nothing stored);
+    #      thorough only: 5 GiB files on all paths, a data area of > 4 GiB stored bytes, inode number deltas beyond s16
+    add(C.sparse4g_case(rng, rng.choice(["lz4", "zstd", "gzip"])))
     if not q:
+        free = shutil.disk_usage(str(ctx.scratch)).free
+        if free >= 16 << 30:
+            add(C.bigdata_case(rng))
+        else:
+            ctx.cov["bigdata_skipped"] = "only %.1f GiB free in the scratch file system; the > 4 GiB data area case needs 16 (input + image + unpacked copy)" % (free / 2 ** 30)
+            ctx.log("SKIPPED: data-area-4GiB case, " + ctx.cov["bigdata_skipped"])
         add(C.bigsparse_case(rng, "zstd", 1048576))
         add(C.bigsparse_case(rng, "gzip", 131072))
         add(C.bigdelta_case(rng, "gzip"))
@@ -222,7 +232,7 @@ def run_case(env, case, wd, paths="abcde", limits=None):
     shutil.rmtree(wdb, ignore_errors=True)
     os.makedirs(wdb)
     try:
-        pk = R.pack(env, case, wdb, timeout=R.TIMEOUT * (6 if case.get("kind") in ("refusal", "bigsparse", "bigdelta") else 1))
+        pk = R.pack(env, case, wdb, timeout=R.TIMEOUT * (6 if case.get("kind") in ("refusal", "bigsparse", "bigdelta", "bigdata") else 1))
         res["rc"] = pk["rc"]
         res["cmd"] = R.show_cmd(pk["cmd"], wdb)
         if case.get("opts", {}).get("sde") is not None:
@@ -246,7 +256,8 @@ def run_case(env, case, wd, paths="abcde", limits=None):
         elif pk["rc"] != 0:
             res["mism"].append(("pack", "refused-representable", "", "exit %d: %s" % (pk["rc"], err[-300:].decode("latin-1"))))
         else:
-            res["mism"] += read_back(env, case, img, exp, wdb, st, paths, limits)
+            want = case.get("paths")
+            res["mism"] += read_back(env, case, img, exp, wdb, st, paths if not want else "".join(c for c in paths if c in want), limits)
         res["exp_nodes"] = exp if status == "ok" else None
     except Exception as e:
         res["mism"].append(("infra", "exception", "", "%s: %s" % (type(e).__name__, traceback.format_exc()[-600:])))
@@ -260,36 +271,90 @@ def sanitizer_summary(err):
     return R.san_summary(err)
 
 
+def strata_pick(exp, limit, seed, key, only=None, always=None):
+    """sample of paths that holds at least one member of every stratum `key(e)` (so that e.g. every inode type, with and
+    without xattrs, linked or not, is looked at in every image), every path `always` selects, then random ones up to `limit`"""
+    import random
+    rng = random.Random(seed)
+    ps = [p for p in sorted(exp) if only is None or only(exp[p])]
+    if len(ps) <= limit:
+        return ps
+    chosen = [p for p in ps if always is not None and always(exp[p])][:max(limit, 40)]
+    seen = {key(exp[p]) for p in chosen}
+    for p in rng.sample(ps, len(ps)):
+        k = key(exp[p])
+        if k not in seen:
+            seen.add(k); chosen.append(p)
+    rest = [p for p in ps if p not in set(chosen)]
+    if len(chosen) < limit:
+        chosen += rng.sample(rest, min(len(rest), limit - len(chosen)))
+    return sorted(set(chosen))
+
+
 def read_back(env, case, img, exp, wdb, st, paths, limits):
+    """runs the read-back paths; `plan` holds, per counter, how many comparisons a path must have made when it reports no
+    mismatch -- a path that compared less than it planned is itself a mismatch (class `coverage`)"""
     thorough = env.thorough
-    lim = limits or ({"s": 14, "l": 6, "x": 8, "c": 16} if not thorough else {"s": 60, "l": 20, "x": 40, "c": 60})
-    mism, got_a = [], {}
+    lim = limits or ({"s": 16, "l": 6, "x": 10, "c": 16} if not thorough else {"s": 60, "l": 20, "x": 40, "c": 60})
+    mism, got_a, plan = [], {}, {}
     seed = case.get("idx", 0)
+    bs = case.get("opts", {}).get("bs") or 131072
+    gsz = G.group_sizes(exp)
+    files = {e.grp for e in exp.values() if e.type == "file"}
     if "a" in paths:
         m, got_a = R.read_a(env, case, img, exp, st)
         mism += m
+        plan["a_nodes"], plan["a_files"] = len(exp), len(files)
+        plan["a_link_names"] = sum(1 for e in exp.values() if e.type != "dir" and gsz[e.grp] > 1)
     if "b" in paths:
         mism += R.read_b(env, case, img, exp, st)
-    gsz = G.group_sizes(exp)
+        if "b_skipped" not in st:
+            plan["b_nodes"] = sum(1 for p in exp if b"\n" not in p)
     if "c" in paths:
-        dirs = pick_paths(case, exp, lim["l"], seed, lambda e: e.type == "dir")
+        dirs = strata_pick(exp, lim["l"], seed, lambda e: True, lambda e: e.type == "dir")
         nond = pick_paths(case, exp, 2, seed + 1, lambda e: e.type != "dir")
+        n_list = 0
         for d in dirs + nond:
-            if len(children_count(exp, d)) > 5000:
+            kids = len(children_count(exp, d)) if exp[d].type == "dir" else 1
+            if kids > 5000:
+                st["l_skipped"] = st.get("l_skipped", 0) + 1
                 continue
+            n_list += kids
             mism += R.read_c_list(env, img, exp, got_a, d, st)
-        interesting = [p for p in sorted(exp) if exp[p].tags & {"hl-member", "implicit", "root", "linkdir", "globhl"}][:lim["s"] // 2]
-        for p in sorted(set(interesting + pick_paths(case, exp, lim["s"] - len(interesting), seed + 2))):
+        plan["c_list_entries"] = n_list
+        skey = lambda e: (e.type, bool(e.xattrs), gsz[e.grp] > 1, e.implicit, e.type == "file" and e.size() >= 1 << 32)
+        stat_paths = strata_pick(exp, lim["s"], seed + 2, skey, always=lambda e: gsz[e.grp] > 1 or "root" in e.tags)
+        for p in stat_paths:
             mism += R.read_c_stat(env, img, exp, got_a, p, gsz, st)
-        withx = pick_paths(case, exp, lim["x"], seed + 3, lambda e: bool(e.xattrs))
+        plan["c_stat"] = len(stat_paths)
+        if any(e.type != "dir" and gsz[e.grp] > 1 for e in exp.values()):
+            st["c_link_names_stat"] = sum(1 for p in stat_paths if exp[p].type != "dir" and gsz[exp[p].grp] > 1)
+        withx = strata_pick(exp, lim["x"], seed + 3, lambda e: (e.type, any(0 in v for v in e.xattrs.values()), any(v == b"" for v in e.xattrs.values())),
+                            only=lambda e: bool(e.xattrs))
         without = pick_paths(case, exp, 2, seed + 4, lambda e: not e.xattrs)
         for p in withx + without:
             mism += R.read_c_xattr(env, img, exp, got_a, p, st)
+        plan["c_xattr"] = len(withx) + len(without)
     if "d" in paths:
-        for p in pick_paths(case, exp, lim["c"], seed + 5, lambda e: e.type == "file"):
+        ckey = lambda e: (e.size() == 0, e.size() < bs, e.size() % bs == 0, e.size() >= 1 << 32, gsz[e.grp] > 1,
+                          any(seg[0] in "zh" for seg in e.content or []))
+        cat_paths = strata_pick(exp, lim["c"], seed + 5, ckey, only=lambda e: e.type == "file")
+        for p in cat_paths:
             mism += R.read_d(env, img, exp, p, st)
+        plan["d_files"] = len(cat_paths)
     if "e" in paths:
         mism += R.read_e(env, case, img, exp, wdb, st)
+        if "e_skipped" not in st and "e_planned" in st:
+            plan["e_nodes"] = st["e_planned"]
+            plan["e_files"] = sum(1 for e in exp.values() if e.type == "file")
+    else:
+        st["e_skipped"] = case.get("paths_why", "path (e) not requested for this case")
+    # accounting: a path without a mismatch must have compared everything it planned
+    for k, want in plan.items():
+        rp = k[0]
+        if st.get(k, 0) != want and not any(m[0] == rp for m in mism):
+            mism.append((rp, "coverage", "", "read-back path (%s) made %d comparisons of kind %s, %d planned" % (rp, st.get(k, 0), k, want)))
+    st["planned"] = plan
     return mism
 
 
@@ -476,7 +541,7 @@ def run(ctx):
     caps = probe_caps(ctx)
     ctx.log("built gensquashfs, rdsquashfs (ASan+UBSan), unz; sandbox capabilities: " + ", ".join(k for k, v in sorted(caps.items()) if v is True))
     env = R.Env(ctx, gen, rd, unz, caps)
-    cases = corpus_cases() + plan(ctx)
+    cases = corpus_cases(ctx) + plan(ctx)
     # the unit-level tie (real library functions vs the Lean models) runs beside the tool-level cases
     unit_box = {"counts": (0, 0, 0), "error": None}
     def unit_job():
@@ -500,12 +565,18 @@ def run(ctx):
             todo.append(c)
     ctx.log("%d cases planned (%d skipped: %s)" % (len(todo), sum(skipped.values()), skipped))
     # long cases first
-    heavy = {"bigsparse": 0, "bigdelta": 0, "refusal": 1}
-    todo.sort(key=lambda c: (heavy.get(c.get("kind"), 5) if c.get("name", "").startswith(("ids-65", "sparse", "inode-delta")) or c.get("kind") in ("bigsparse", "bigdelta") else 5, c["idx"]))
+    def weight(c):
+        if c.get("kind") in ("bigdata", "bigsparse", "bigdelta"):
+            return 0
+        if c.get("name", "").startswith(("ids-6", "ids-4", "nesting-4096", "xattr-sets-2", "xattr-sets-4", "sizes-B1048576")):
+            return 1
+        return 5
+    todo.sort(key=lambda c: (weight(c), c["idx"]))
     results = []
     nworkers = int(os.environ.get("VERIF_JOBS", WORKERS_QUICK if ctx.quick() else WORKERS_THOROUGH))
     with cf.ThreadPoolExecutor(nworkers) as ex:
         futs = [ex.submit(run_case, env, c, ctx.scratch / ("case%d" % c["idx"])) for c in todo]
+        assert len(futs) == len(todo)
         for k, (c, f) in enumerate(zip(todo, futs)):
             results.append((c, f.result()))
             if (k + 1) % 200 == 0:
@@ -528,7 +599,7 @@ def run(ctx):
     ])
 
 
-def corpus_cases():
+def corpus_cases(ctx=None):
     out = []
     d = vlib.CORPUS / "C01"
     if d.is_dir():
@@ -538,11 +609,14 @@ def corpus_cases():
             try:
                 body = json.loads(p.read_text())
                 c = body.get("replay", body).get("case")
-                if c:
-                    c = dict(c); c["kind"] = "corpus"; c["name"] = "corpus:" + p.stem; c["idx"] = 100000 + len(out)
-                    out.append(c)
-            except Exception:
-                pass
+                if not c or "mode" not in c:
+                    raise ValueError("no case in it")
+                c = dict(c); c["kind"] = "corpus"; c["name"] = "corpus:" + p.stem; c["idx"] = 100000 + len(out)
+                out.append(c)
+            except Exception as e:
+                if ctx is None:
+                    raise
+                ctx.violation("infra:corpus:" + p.name, "regression input corpus/C01/%s cannot be read: %s" % (p.name, e), {"file": str(p)}, found_input=False)
     return out
 
 
@@ -553,7 +627,11 @@ def summarize(ctx, env, results, skipped, caps, stats):
     def bump(h, k, n=1):
         hist[h][k] = hist[h].get(k, 0) + n
     paths_nodes = {"a_nodes": 0, "a_files": 0, "a_bytes": 0, "b_nodes": 0, "c_list_entries": 0, "c_stat": 0, "c_xattr": 0, "d_files": 0, "d_bytes": 0,
-                   "e_nodes": 0, "e_files": 0, "e_xattr_nodes": 0}
+                   "e_nodes": 0, "e_files": 0, "e_xattr_nodes": 0, "a_link_names": 0, "c_link_names_stat": 0, "a_files_4g": 0, "a_starts_4g": 0,
+                   "l_skipped": 0}
+    skip_reasons = {"b": {}, "e": {}}
+    labelled = {}
+    by_name = {}
     nontrivial = set()
     reports = 0
     suppressed = 0
@@ -601,6 +679,11 @@ def summarize(ctx, env, results, skipped, caps, stats):
             bump("refused_kinds", res["stats"]["refused"])
         for k in paths_nodes:
             paths_nodes[k] += res.get("stats", {}).get(k, 0)
+        by_name[case.get("name")] = res
+        for rp in "be":
+            why = res.get("stats", {}).get(rp + "_skipped")
+            if why and res["rc"] == 0:
+                skip_reasons[rp][why[:60]] = skip_reasons[rp].get(why[:60], 0) + 1
         if "e_flags" in res.get("stats", {}):
             unpack_flags[res["stats"]["e_flags"]] = unpack_flags.get(res["stats"]["e_flags"], 0) + 1
         if len(samples) < 6 and res.get("cmd") and case.get("kind") in ("random", "options", "glob"):
@@ -611,7 +694,10 @@ def summarize(ctx, env, results, skipped, caps, stats):
             bump("mismatch_classes", "%s:%s" % (m[0], m[1]))
             kk = known_key(case, exp, m)
             if kk is not None:
-                ctx.violation(kk, KNOWN_WHAT[kk] + " — e.g. case %s: %s %s" % (case.get("name"), m[2], m[3][:200]), replay_dict(case, res, m))
+                # a defect that was found and repaired once is reported under its old key, once per run (with the first case that shows it)
+                labelled[kk] = labelled.get(kk, 0) + 1
+                if labelled[kk] == 1:
+                    ctx.violation(kk, KNOWN_WHAT[kk] + " — e.g. case %s: %s %s" % (case.get("name"), m[2], m[3][:200]), replay_dict(case, res, m))
                 continue
             if (m[0], m[1]) in seen_cls:
                 continue
@@ -635,12 +721,41 @@ def summarize(ctx, env, results, skipped, caps, stats):
             what = "%s: read-back path (%s) %s %s: %s  [gensquashfs %s]" % (case.get("name"), m[0], m[1], m[2], m[3][:300], sres.get("cmd", "")[:200])
             found = m[0] != "infra" and m[1] != "reader-vs-parser"
             ctx.violation("mismatch:%s:%s:%s" % (m[0], m[1], case_hash(small)), what, replay_dict(small, sres, m), found_input=found)
+    if labelled:
+        ctx.log("mismatches under the keys of repaired defects: %s" % labelled)
     if suppressed:
         ctx.log("%d further mismatch classes not reported separately (limit %d reports per run)" % (suppressed, MAX_REPORTS))
     slow = sorted(results, key=lambda cr: -cr[1].get("t", 0))[:4]
     ctx.log("slowest cases: %s" % [(c.get("name"), r.get("t")) for c, r in slow])
+    # ---- floors: a run that compared (much) less than a normal run is not evidence, whatever it printed
+    floors = floors_for(ctx.quick())
+    if ctx.cov.get("bigdata_skipped"):            # recorded in the evidence; the > 4 GiB data area is then not claimed
+        floors["min"].pop("a_starts_4g", None)
+        floors["min"]["a_files_4g"] -= 1
+    got_counts = dict(paths_nodes, images=packed, refused=refused, b_skipped=sum(skip_reasons["b"].values()), e_skipped=sum(skip_reasons["e"].values()))
+    short = []
+    for k, lo in floors["min"].items():
+        if got_counts.get(k, 0) < lo:
+            short.append("%s = %d < %d" % (k, got_counts.get(k, 0), lo))
+    for k, hi in floors["max_fraction_of_images"].items():
+        if got_counts.get(k, 0) > hi * max(packed, 1):
+            short.append("%s = %d > %d%% of %d images" % (k, got_counts.get(k, 0), round(hi * 100), packed))
+    for name, want in floors["must"].items():
+        r = by_name.get(name)
+        state = None if r is None else ("packed" if r["rc"] == 0 and not r["mism"] else "refused" if r.get("stats", {}).get("refused") and not r["mism"] else "other")
+        if state != want and not (r is not None and r["mism"]):
+            short.append("case %s: %s, must be %s" % (name, state or "not run", want))
+    if short:
+        ctx.violation("floor:" + vlib.sha(";".join(sorted(short)))[:10], "the run compared less than the tool-level tie requires: " + "; ".join(short)[:900],
+                      {"floors": floors, "counts": got_counts}, found_input=False)
     uc = stats.pop("_unit_counts", [0, 0, 0])
     ctx.cov.update(stats)
+    ctx.cov["floors"] = floors
+    ctx.cov["skipped_read_back_paths"] = {"b_describe": skip_reasons["b"], "e_unpack": skip_reasons["e"], "l_list_of_directories_over_5000_entries": paths_nodes["l_skipped"]}
+    ctx.cov["hard_link_groups"] = {"names_in_groups_compared_by_a_(ino,nlink)": paths_nodes["a_link_names"], "names_in_groups_stat_by_c": paths_nodes["c_link_names_stat"],
+                                   "note": "rdsquashfs -d prints every name of a group as its own `file` line (C16 describe_prints_no_link): path (b) cannot see link groups, "
+                                           "and -u unpacks the names as separate files; groups are compared on (a) for every name and on (c) -s for every name (up to 40 per image)"}
+    ctx.cov["beyond_4GiB"] = {"files_of_4GiB_and_more_rebuilt_by_a": paths_nodes["a_files_4g"], "files_whose_blocks_or_fragment_start_beyond_4GiB": paths_nodes["a_starts_4g"]}
     ctx.cov.update({
         "evaluations": len(results) + uc[0],
         "distinct_nontrivial": len(nontrivial) + uc[1],
@@ -665,6 +780,29 @@ def summarize(ctx, env, results, skipped, caps, stats):
                 "every inode type; special names; hard-link groups; glob lines; refusals) + seeded random trees in the three input modes x seeded options; "
                 "non-trivial = distinct case that packed with exit 0 and was read back on paths a-e",
     })
+
+
+def floors_for(quick):
+    """minimum number of comparisons per run (about 70 % of what seeds 0..9 deliver), upper bounds on skipped paths, and the cases
+    that must have been packed / refused"""
+    if quick:
+        # seeds 0..9 deliver: 258 images, 42 refusals, a 70.8-72.3k nodes / 2061-2975 files, b 70.5-72.2k, -l 13.4-15.0k entries, -s 3483-3654,
+        # -x 1183-1324, -c 1968-2231 files, e 65.0-66.8k nodes / 2491-3311 files, 670-799 names in hard-link groups
+        return {"min": {"images": 250, "refused": 40, "a_nodes": 55000, "a_files": 1600, "b_nodes": 55000, "c_list_entries": 10000, "c_stat": 2700, "c_xattr": 900,
+                        "d_files": 1500, "e_nodes": 50000, "e_files": 1900, "a_link_names": 500, "c_link_names_stat": 500, "a_files_4g": 1},
+                "max_fraction_of_images": {"b_skipped": 0.08, "e_skipped": 0.12},
+                "must": {"ids-65535-accepted": "packed", "ids-65536": "refused", "ids-65537": "refused", "ids-65536-uid-of-directories": "refused", "ids-40000-wide-accepted": "packed",
+                         "nesting-4096-accepted": "packed", "nesting-4097-explicit": "refused", "name-256-accepted": "packed", "name-257": "refused",
+                         "link-missing-target": "refused", "link-to-directory": "refused", "link-to-itself": "refused", "link-cycle": "refused",
+                         "hardlinks-link-directive": "packed", "hardlinks-link-lines-first": "packed", "glob-hardlinks-prefix-decoy": "packed",
+                         "glob-hardlinks-types": "packed", "xattr-sets-2049": "packed"}}
+    # thorough, seed 0: 745 images, 44 refusals, a 220.9k nodes / 14.1k files, b 216.8k, -l 58.7k, -s 23.3k, -x 7.1k, -c 13.3k, e 214.1k / 15.3k,
+    # 2283 names in link groups, 6 files >= 4 GiB, 4 files with block / fragment starts beyond 4 GiB
+    return {"min": {"images": 700, "refused": 40, "a_nodes": 165000, "a_files": 10000, "b_nodes": 160000, "c_list_entries": 42000, "c_stat": 17000, "c_xattr": 5000,
+                    "d_files": 9500, "e_nodes": 155000, "e_files": 11000, "a_link_names": 1600, "c_link_names_stat": 1600, "a_files_4g": 6, "a_starts_4g": 2},
+            "max_fraction_of_images": {"b_skipped": 0.08, "e_skipped": 0.12},
+            "must": {"ids-65535-accepted": "packed", "ids-65536": "refused", "ids-65535-one-directory-accepted": "packed", "ids-65536-one-directory": "refused",
+                     "inode-delta-32767": "packed", "xattr-sets-4097": "packed"}}
 
 
 def bucket(n):
